@@ -196,25 +196,88 @@ def _s_judge(x, name, backend, viol, cid, sig):
 SCHEDMODE = SchedMode(S_SPECS, _s_build, _s_judge)
 
 
+# ---------------------------------------------------------------------------------------------------
+# The bulk loader (`nostr-relay load`, cli.load): every file of up to LOAD_DEPTH distinct lines over a sub-universe, through the real command.
+LOAD_ALPHA = ["a1", "a2", "b1", "a29", "A_del_a1", "A_del_a1a2b1", "B_del_a1", "B_del_b1a2", "A_del_a29", "A_del_a1a2_hinted"]
+LOAD_DEPTH = {"quick": 2, "thorough": 3}
+
+
+def load_cases(tier):
+    return [("load", backend, first, tier) for backend in ("sql", "kv") for first in LOAD_ALPHA]
+
+
+def run_load(case):
+    import gc
+    import itertools
+    from ..harness import World
+
+    _, backend, first, tier = case
+    u = CHECK.U()["U8"]
+    viol = []
+    n = 0
+    outcomes = set()
+    rest = [x for x in LOAD_ALPHA if x != first]
+    files = [(first,)]
+    for k in range(1, LOAD_DEPTH[tier]):
+        files += [(first,) + t for t in itertools.permutations(rest, k)]
+    for names in files:
+        w = World(backend, storage_options={"stats_interval": 1e15})
+        try:
+            w.cli_load([json.dumps(u[nm] if i % 2 else ["EVENT", u[nm]]) for i, nm in enumerate(names)])
+            have = store.decode_store(backend, w.dump())
+        finally:
+            w.close()
+            gc.collect()
+        n += 1
+        outcomes.add(tuple(sorted(nm for nm in names if u[nm]["id"] in have)))
+        sig = "load|" + ">".join(names)
+        for i, nm in enumerate(names):
+            e = u[nm]
+            if e["kind"] == 5:
+                continue
+            own = [(j, d) for j, d in enumerate(names) if u[d]["kind"] == 5 and u[d]["pubkey"] == e["pubkey"] and e["id"] in refs_of(u[d])]
+            if not own and e["id"] not in have:
+                viol.append({"case": "load|" + backend, "clause": "foreign-untouched" if any(e["id"] in refs_of(u[d]) for d in names if u[d]["kind"] == 5) else "unreferenced-untouched",
+                             "sig": sig + "|" + nm, "detail": "file %s: %s is referenced by no deletion of its own author but is not stored after the load" % (" ".join(names), nm)})
+            for j, d in own:
+                if j > i and e["created_at"] < u[d]["created_at"] and u[d]["id"] in have and e["id"] in have:
+                    viol.append({"case": "load|" + backend, "clause": "own-older-removed", "sig": sig + "|" + nm,
+                                 "detail": "file %s: %s precedes the accepted deletion %s of its author, which references it, but is still stored after the load" % (" ".join(names), nm, d)})
+    return {"id": "load|%s|%s" % (backend, first), "viol": viol, "outcome": sorted(outcomes), "outcome_is_set": True, "evals": n, "states": n, "transitions": n,
+            "nontrivial": True, "desc": {"mode": "load", "backend": backend, "first": first, "tier": tier}, "extra": {"load_files": n},
+            "sample": {"mode": "load", "backend": backend, "first": first, "files": n, "distinct_final_stores": len(outcomes)}}
+
+
 def cases(tier):
-    return list(_base_cases(tier)) + SCHEDMODE.cases(tier)
+    return list(_base_cases(tier)) + SCHEDMODE.cases(tier) + load_cases(tier)
 
 
 def describe(case):
+    if case[0] == "load":
+        return {"mode": "load", "backend": case[1], "first": case[2], "tier": case[3]}
     return SCHEDMODE.describe(case) if SCHEDMODE.is_case(case) and case[0] == "sched" else _base_describe(case)
 
 
 def run_case(case):
+    if case[0] == "load":
+        return run_load(case)
     return SCHEDMODE.run(case) if SCHEDMODE.is_case(case) and case[0] == "sched" else _base_run_case(case)
 
 
 def coverage(tier, agg):
     c = _base_coverage(tier, agg)
     c["rule"] += SCHEDMODE.rule() + " on a store holding a1, a2, b1: at quiescence every own older event referenced by an accepted deletion is gone and not served, everything else is stored"
+    c["rule"] += ("; LOAD: every file of up to %d distinct lines over %d members of U8 through the real loader command cli.load (World.cli_load) on both backends: an event no deletion of its own "
+                  "author references is stored afterwards; an event that precedes, in the file, an accepted deletion of its author which references it (and is older) is not" % (LOAD_DEPTH[tier], len(LOAD_ALPHA)))
     return c
 
 
 def replay(desc):
+    if desc.get("mode") == "load":
+        r = run_case(("load", desc["backend"], desc["first"], desc.get("tier", "quick")))
+        for v in r["viol"][:20]:
+            print(v["clause"], v["detail"])
+        return r["viol"]
     if desc.get("mode") == "sched":
         r = run_case(SCHEDMODE.from_desc(desc))
         for v in r["viol"][:20]:
